@@ -43,12 +43,13 @@ Definition obs_eqb (a b : obs) : bool :=
   | _, _ => false
   end.
 
-(* k_env: the origin under its first authority (localhost:p); k_host2: its second name (127.0.0.1); every
+(* k_env: the origin under its first authority (localhost:p); k_env2: the second authority of the cell - the same
+   origin under its other name (127.0.0.1:p), or ANOTHER origin on the same host name (localhost:p'); every
    operation is tagged with the authority it is directed at (false = first; ignored for operations that are not
    directed at an authority) *)
-Record c12_case := mkCase { k_env : env; k_host2 : bytes; k_ops : list (bool * op); k_obs : list obs }.
+Record c12_case := mkCase { k_env : env; k_env2 : env; k_ops : list (bool * op); k_obs : list obs }.
 
-Definition env2 (k : c12_case) : env := mkEnv (e_https (k_env k)) (k_host2 k) (e_srv (k_env k)) (e_proxy (k_env k)).
+Definition env2 (k : c12_case) : env := k_env2 k.
 
 Definition c12_check (k : c12_case) : bool :=
   list_eqb obs_eqb (fst (run2 (k_env k) (env2 k) (new_client, new_client) (k_ops k))) (k_obs k).
